@@ -93,11 +93,13 @@ pub struct Avoid {
     pub k4: bool,
     /// K5: degenerate duplicate control points / one-point segments
     pub k5: bool,
+    /// K12: a sample file name inside a slider's per-node bank field
+    pub k12: bool,
 }
 
 impl Avoid {
-    pub const ALL: Avoid = Avoid { k1: true, k2: true, k3: true, k4: true, k5: true };
-    pub const NONE: Avoid = Avoid { k1: false, k2: false, k3: false, k4: false, k5: false };
+    pub const ALL: Avoid = Avoid { k1: true, k2: true, k3: true, k4: true, k5: true, k12: true };
+    pub const NONE: Avoid = Avoid { k1: false, k2: false, k3: false, k4: false, k5: false, k12: false };
 }
 
 pub const TEXT_POOL: &[&str] = &[
@@ -442,7 +444,16 @@ pub fn gen_objects(t: &mut Tape, avoid: Avoid, max: usize) -> Vec<String> {
                     l.push_str(&(0..nn).map(|_| t.below(16).to_string()).collect::<Vec<_>>().join("|"));
                     if t.chance(70) {
                         l.push(',');
-                        l.push_str(&(0..nn).map(|_| format!("{}:{}", t.below(4), t.below(4))).collect::<Vec<_>>().join("|"));
+                        let sets: Vec<String> = (0..nn)
+                            .map(|_| {
+                                if !avoid.k12 && t.chance(25) {
+                                    format!("{}:{}:{}:{}:{}", t.below(4), t.below(4), t.below(3), t.below(101), t.pick(&["node.wav", "n 1.ogg"]))
+                                } else {
+                                    format!("{}:{}", t.below(4), t.below(4))
+                                }
+                            })
+                            .collect();
+                        l.push_str(&sets.join("|"));
                         if t.chance(70) {
                             l.push_str(&extras);
                         }
